@@ -87,7 +87,7 @@ type c12Scenario struct {
 	Ops     []c12Op    `json:"ops"`
 }
 
-var c12Kinds = []string{"member", "between", "clauses", "det", "alt-tail", "error", "throw", "undefined", "findall", "repeat", "nat", "catch-all", "catch-err", "call", "once", "cut-only", "true-only", "cut-or", "repeat-plain"}
+var c12Kinds = []string{"member", "between", "clauses", "det", "alt-tail", "error", "throw", "undefined", "findall", "repeat", "nat", "catch-all", "catch-err", "call", "once", "cut-only", "true-only", "cut-or", "repeat-plain", "builtin-gen"}
 
 func c12Shapes() []c12Query {
 	// the 12 shapes used by the enumeration phase
@@ -137,6 +137,9 @@ func c12Gen(g *kit.Lane, tier string) c12Scenario {
 	for i := 0; i < nq; i++ {
 		q := c12Query{Kind: c12Kinds[g.Choose(len(c12Kinds))]}
 		q.K = g.Choose(5)
+		if q.Kind == "builtin-gen" {
+			q.K = g.Choose(10) // generator K%5, followed by a goal of the host iff K >= 5
+		}
 		if g.Choose(4) == 0 {
 			q.FireAt = 1 + g.Choose(40)
 		}
@@ -283,6 +286,33 @@ func c12Build(q c12Query, id string) (text string, at func(i int) c12Item) {
 			}
 			return A("")
 		}
+	case "builtin-gen":
+		// a nondeterministic built-in written in Go as the generator, followed by nothing or by a goal of the host: every
+		// answer is handed over before the next alternative is tried
+		type bg struct {
+			text string
+			ans  []string
+		}
+		gens := []bg{
+			{"nth0(N, [a, b, c], X)", []string{"N=0 X=a", "N=1 X=b", "N=2 X=c"}},
+			{"nth1(N, [a, b], X)", []string{"N=1 X=a", "N=2 X=b"}},
+			{"atom_concat(X, Y, ab)", []string{"X='' Y=ab", "X=a Y=b", "X=ab Y=''"}},
+			{"sub_atom(abc, B, 2, A, X)", []string{"A=1 B=0 X=ab", "A=0 B=1 X=bc"}},
+			{"append(X, Y, [a, b])", []string{"X=[] Y=[a,b]", "X=[a] Y=[b]", "X=[a,b] Y=[]"}},
+		}
+		b := gens[k%len(gens)]
+		text = b.text
+		withTick := k >= 5
+		if withTick {
+			text += fmt.Sprintf(", tick(%s, g)", id)
+		}
+		for _, a := range b.ans {
+			if withTick {
+				items = append(items, T("g"))
+			}
+			items = append(items, A(a))
+		}
+		items = append(items, end)
 	case "repeat-plain":
 		// nothing between repeat/0 and the hand-off to the consumer (or only a unification): answers without end, and a
 		// loop in which no predicate of the host is ever called
@@ -527,7 +557,8 @@ func (c12) Exec(r *kit.Run) {
 					v := kit.NewVars()
 					err := s.Scan(v)
 					r.Logf("op %d sol%d Scan -> %q err=%v", n, i, v.String(), err)
-					if m.last != "?" && !m.closed {
+					if m.last != "?" {
+						// (also after Close: the most recent answer stays the most recent answer, QuerySolution relies on it)
 						if err != nil || v.String() != m.last {
 							r.Fail("answer-mismatch", "Scan-differs", "op %d: Scan on query %d (%s) gave %q err=%v, model %q", n, i, sc.Queries[i].Text, v.String(), err, m.last)
 						}
